@@ -1,8 +1,12 @@
 // C20: the runtime parsers, on the text of a macro invocation and on the text the compiler
 // printed for it (measured by echo!).  The compile-time side is produced by the crates that
 // tools/props/c20.py generates; this binary is the "same text, at run time" side.
-//   simple k <cps>*k   -> r1 ## .. ## rk          ri = ok <var-cp|-> <n> <coef>* | err <Kind> | panic
-//   inter  k <cps>*k   -> r1 ## .. ## rk          ri = ok <nterms> (<coef> <nvars> (<name-cp> <exp>)*)* | <nvars> <name-cp>* | err <Kind>
+//   simple k <cps>*k   -> r1 ## .. ## rk ## x     ri = ok <var-cp|-> <n> <coef>* | err <Kind> | panic
+//   inter  k <cps>*k   -> r1 ## .. ## rk ## x     ri = ok <nterms> (<coef> <nvars> (<name-cp> <exp>)*)* | <nvars> <name-cp>* | err <Kind>
+//      x = what spindalis_macros does with rk (the runtime result of the LAST text, which is the text the
+//      macro saw): rk itself, except that a value with a non-finite float is printed as `inf`/`NaN`, which
+//      is not a literal: `unresolved`.  (The same third component as the extracted macro model prints; the
+//      compiler's real behaviour is measured by tools/props/c20.py and compared with both.)
 //   dsimple <cps> / dinter <cps>  -> r ## <the `{:?}` text of every float field, in order>   (assumption R2)
 #[path = "../util.rs"]
 mod util;
@@ -70,6 +74,14 @@ fn inter(s: &str) -> String {
     }
 }
 
+// 7ff/fff exponent field in any 16-digit float token, or the token `nan`
+fn expansion_of(r: &str) -> String {
+    let nonfinite = r.split(' ').any(|t| {
+        t == "nan" || (t.len() == 16 && (t.starts_with("7ff") || t.starts_with("fff")) && t.chars().all(|c| c.is_ascii_hexdigit()))
+    });
+    if r.starts_with("ok") && nonfinite { "unresolved".to_string() } else { r.to_string() }
+}
+
 fn dbg_list(v: &[f64]) -> String {
     v.iter().map(|c| format!("{c:?}")).collect::<Vec<_>>().join(" ")
 }
@@ -79,23 +91,25 @@ fn run(line: &str) -> String {
     match t.word() {
         "simple" => {
             let k = t.usize();
-            (0..k)
+            let mut v: Vec<String> = (0..k)
                 .map(|_| {
                     let s = t.string();
                     guarded(|| simple(&s))
                 })
-                .collect::<Vec<_>>()
-                .join(" ## ")
+                .collect();
+            v.push(expansion_of(v.last().expect("k >= 1")));
+            v.join(" ## ")
         }
         "inter" => {
             let k = t.usize();
-            (0..k)
+            let mut v: Vec<String> = (0..k)
                 .map(|_| {
                     let s = t.string();
                     guarded(|| inter(&s))
                 })
-                .collect::<Vec<_>>()
-                .join(" ## ")
+                .collect();
+            v.push(expansion_of(v.last().expect("k >= 1")));
+            v.join(" ## ")
         }
         "dsimple" => {
             let s = t.string();
